@@ -52,6 +52,17 @@ empty tight(int n, int big) { byte buf[n]; buf[n - 1] = 'X'; write(big); write('
 empty @is_you(int n, int big) { int keep = deep(n, deep(1, 2, 3, 4), 5, 6); tight(n, big); tight(n - 1, big); write(keep); }
 '''
 
+# the same within ONE function: earlier write(int) calls at a greater and at the same frame depth, then the exactly fitting array, then the long write
+ORDER2_PROG = '''
+empty tight2(int n, int big) {
+    { int p = n; int q = 2; int r = 3; write(p + q + r - n); write(' '); }
+    write(7); write(' ');
+    byte buf[n]; buf[n - 1] = 'X'; buf[n - 2] = 'Y';
+    write(big); write(' '); write(buf[n - 2]); write(buf[n - 1]); writeln();
+}
+empty @is_you(int n, int big) { tight2(n, big); tight2(n - 1, big); write(n); }
+'''
+
 # the same inside try bodies: one that is undone (whatever the write routines do on that doomed path must not leak into
 # the committed timeline, e.g. by overwriting the array the defeat condition reads), one that commits, one that is stopped
 CALLER_TT_PROG = '''
@@ -273,14 +284,17 @@ def run_shard(spec):
         hi, lo = (1 << (bits - 1)) - 1, -(1 << (bits - 1))
         r = random.Random(spec['seed'] + word)
         vals = [0, 5, -5, 9, 10, 99, 100, -100, hi, lo, hi - 1, lo + 1, 12345, -12345] + [r.randint(lo, hi) for _ in range(30)]
-        for PROG, tt in ((CALLER_PROG, False), (CALLER_TT_PROG, True), (ORDER_PROG, 'order')):
+        for PROG, tt in ((CALLER_PROG, False), (CALLER_TT_PROG, True), (ORDER_PROG, 'order'), (ORDER2_PROG, 'order2')):
             want = b''
             if tt == 'order':
                 # the reserve for the digit buffer in a function compiled AFTER one whose write(int) sat deeper: array of exactly
                 # fitting length, most negative value (longest text)
                 lo = -(1 << (bits - 1))
                 want = b'10 19 ' + (str(lo).encode() + b' X\n') * 2 + b'7'        # deep(1,2,3,4) prints 10 and returns 1; 7 + 1 + 5 + 6 = 19
-            for v in (vals if tt != 'order' else []):
+            if tt == 'order2':
+                lo = -(1 << (bits - 1))
+                want = (b'5 7 ' + str(lo).encode() + b' YX\n') * 2 + b'7'
+            for v in (vals if tt not in ('order', 'order2') else []):
                 if tt:
                     want += b'u' + str(v).encode() + b'true;' + str(v).encode() + b'\ns' + b'0144-777keep4242\n'
                 else:
@@ -288,8 +302,8 @@ def run_shard(spec):
             CompilerError, _ = env.compiler_error_types()
             base = env.compile_src(PROG, word=word, stack=diff.GENEROUS_STACK)
             top = 48 if tt is True else diff.GENEROUS_STACK       # inside try bodies a doomed path may wander through the whole stack: keep it small
-            args = [str(v) for v in vals] if tt != 'order' else ['7', str(-(1 << (bits - 1)))]
-            ids = [runner.case_id('caller', tt, word, v) for v in (vals if tt != 'order' else [0])]
+            args = [str(v) for v in vals] if tt not in ('order', 'order2') else ['7', str(-(1 << (bits - 1)))]
+            ids = [runner.case_id('caller', tt, word, v) for v in (vals if tt not in ('order', 'order2') else [0])]
             g = expect_run(res, PROG, args, word, want, f'caller state around write(int){" inside try blocks" if tt is True else " in a function compiled after a deeper write(int)" if tt else ""}, word {word}', ids, lines=with_stack(base, top) if tt is True else base)
             if g is not None:
                 # smallest stack that reproduces the generous outcome, then the sizes around it
